@@ -23,8 +23,8 @@ def replay_case(prop, path):
         n, out = core.replay_rc(prop, j["harness"], path, times=1)
         return n > 0, out
     if eng == "py":
-        mod = importlib.import_module(j["harness"])
-        ok, msg = mod.replay(j["case"], core.run_env(prop))
+        from vv import pyx
+        ok, msg = pyx.replay(j["harness"], j, core.run_env(prop))
         return (not ok), msg
     if eng == "fz":
         r = subprocess.run([f"{core.HB}/{j['harness']}", j["artifact"]], stdout=subprocess.PIPE, stderr=subprocess.STDOUT,
@@ -75,6 +75,8 @@ def main():
     exhausted = []
     known = core.known_for(prop)
     known_keys = {k["key"] for k in known}
+    dev_known = {k for k in os.environ.get("VV_KNOWN_EXTRA", "").split(",") if k}  # development aid only
+    known_keys |= dev_known
 
     # ---- replay tier: regression inputs of fixed findings and earlier shrunk cases
     n_replayed = 0
@@ -99,11 +101,8 @@ def main():
             res = core.run_rc(prop, p["harness"], seed, cfg["cases"], cfg.get("procs", 1), work,
                               cfg.get("budget_s", 3600), extra_args=cfg.get("args", ()), max_size=cfg.get("max_size"))
         elif p["engine"] == "py":
-            mod = importlib.import_module(p["harness"])
-            res = mod.run(tier=tier, seed=seed, workdir=work, cfg=cfg, env=core.run_env(prop), known=known_keys)
-            for f in res["failures"]:
-                f.setdefault("harness", p["harness"])
-                f["engine"] = "py"
+            from vv import pyx
+            res = pyx.run(p["harness"], tier, seed, work, cfg, core.run_env(prop), known_keys)
         elif p["engine"] == "fz":
             from vv import fuzz
             res = fuzz.run(prop, p, cfg, seed, work)
@@ -149,6 +148,8 @@ def main():
         log(f"VIOLATION property={prop} replay={path}")
 
     # ---- known findings: re-run their replays; the line is printed only while they still fail
+    for k in sorted(dev_known & known_hits):
+        log(f"DEV-KNOWN (VV_KNOWN_EXTRA): property={prop} key={k}")
     for k in known:
         path = os.path.join(core.VERIF, k["replay"])
         still = replay_case(prop, path)[0] if os.path.exists(path) else (k["key"] in known_hits)
